@@ -276,7 +276,10 @@ fn parked_stream_removed<F: FutFl, const OUTER: usize>(w: &mut World<F>) {
     sched::op_end();
     sched::disable();
     let repolled = lg().recs[4].res != R_NONE;
+    // (re-polling inside the removal is only possible if the notification comes before the
+    // removal has finished - on correct code this witness is unsatisfiable and is optional)
     kani::cover!(repolled, "the sink task was polled again while the stream was being removed");
+    kani::cover!(woken_since_last_call(TASK_TX) || repolled, "the parked sink task was notified by the removal");
     // quiescence: stream 1 is gone, stream 0 is drained: there is room.  Either the task got its
     // value in, or it must have been woken after the start of its last call
     let last = if repolled { lg().recs[4].res } else { R_NOTREADY };
